@@ -56,6 +56,12 @@ def validation_tu(binds_line, results_line, explicit_line=""):
     return "\n".join(L) + "\n", n
 
 
+def mem_rel(f):
+    """class of the method relative to the class of the object: 0 same, 1 method of a base, 2 method of a
+    derived class (object is the base), 3 unrelated class"""
+    return f[5] if len(f) > 5 else 0
+
+
 class Pairing:
     def __init__(self, sig, r, functor):
         self.sig, self.r, self.functor = sig, r, functor     # functor: nested tuple
@@ -65,7 +71,7 @@ class Pairing:
             if f[0] == "fun":
                 return "fun %d %s %s" % (len(f[2]), " ".join(f[2]), f[3])
             if f[0] == "mem":
-                return "mem %d %d %d %s %s" % (f[1], f[2], len(f[3]), " ".join(f[3]), f[4])
+                return "mem %d %d %d %d %s %s" % (mem_rel(f), f[1], f[2], len(f[3]), " ".join(f[3]), f[4])
             if f[0] == "bind":
                 return "bind %s %s" % (f[1], ftxt(f[2]))
             if f[0] == "hr":
@@ -88,9 +94,22 @@ class Pairing:
                 return "Fo_%d()" % idx
             if f[0] == "mem":
                 oc, mc, ps, rf = f[1], f[2], f[3], f[4]
-                decls.append("struct C_%d : public sigc::trackable { %s m(%s)%s; }; %sC_%d& obj_%d();" % (
-                    idx, cpp_rtype(rf), ", ".join(map(cpp_ptype, ps)), " const" if mc else "", "const " if oc else "", idx, idx))
-                return "sigc::mem_fun(obj_%d(), &C_%d::m)" % (idx, idx)
+                meth = "%s m(%s)%s;" % (cpp_rtype(rf), ", ".join(map(cpp_ptype, ps)), " const" if mc else "")
+                rel = mem_rel(f)
+                objdecl = "%sC_%d& obj_%d();" % ("const " if oc else "", idx, idx)
+                if rel == 0:
+                    decls.append("struct C_%d : public sigc::trackable { %s }; %s" % (idx, meth, objdecl))
+                    owner = "C_%d" % idx
+                elif rel == 1:
+                    decls.append("struct Cb_%d : public sigc::trackable { %s }; struct C_%d : public Cb_%d { int extra; }; %s" % (idx, meth, idx, idx, objdecl))
+                    owner = "Cb_%d" % idx
+                elif rel == 2:
+                    decls.append("struct C_%d : public sigc::trackable { int own; }; struct Cd_%d : public C_%d { %s }; %s" % (idx, idx, idx, meth, objdecl))
+                    owner = "Cd_%d" % idx
+                else:
+                    decls.append("struct C_%d : public sigc::trackable { int own; }; struct Cx_%d { %s }; %s" % (idx, idx, meth, objdecl))
+                    owner = "Cx_%d" % idx
+                return "sigc::mem_fun(obj_%d(), &%s::m)" % (idx, owner)
             if f[0] == "bind":
                 v = f[1]
                 val = {"i": "1", "l": "1L", "d": "1.5", "b": "true", "B": "B()", "D": "D()", "U": "U()", "p": "(B*)nullptr", "q": "(D*)nullptr"}[v]
@@ -159,7 +178,7 @@ def gen_pairings(seed, count):
             f = ("fun", r.choice(["ptr", "obj"]), ps, rf)
         elif kind < 0.75:
             mc = r.randint(0, 1)
-            f = ("mem", 0, mc, ps, rf)
+            f = ("mem", 0, mc, ps, rf, r.choice([0, 0, 1]))
         elif kind < 0.9:
             v = r.choice(BASES)
             extra = compatible_param(r, "%s.l" % v)
@@ -198,7 +217,7 @@ def gen_pairings(seed, count):
 
         def with_params(nps, nrf=None):
             nrf = irf if nrf is None else nrf
-            ni = ("fun", inner[1], nps, nrf) if inner[0] == "fun" else ("mem", inner[1], inner[2], nps, nrf)
+            ni = ("fun", inner[1], nps, nrf) if inner[0] == "fun" else ("mem", inner[1], inner[2], nps, nrf, mem_rel(inner))
             return rebuild(f, ni)
         if mut < 0.2:                       # arity
             out.append(Pairing(sig, res, with_params(ips + ["i.v"]) if r.random() < 0.5 or not ips else with_params(ips[:-1])))
@@ -214,8 +233,11 @@ def gen_pairings(seed, count):
             out.append(Pairing(sig, res, with_params(nps)))
         elif mut < 0.8:                     # result type
             out.append(Pairing(sig, res, with_params(ips, r.choice(["-"] + BASES))))
-        elif inner[0] == "mem":             # constness of object / method
-            out.append(Pairing(sig, res, rebuild(f, ("mem", r.randint(0, 1), r.randint(0, 1), ips, irf))))
+        elif inner[0] == "mem":             # constness of object / method; class of the method vs class of the object
+            if r.random() < 0.5:
+                out.append(Pairing(sig, res, rebuild(f, ("mem", r.randint(0, 1), r.randint(0, 1), ips, irf, mem_rel(inner)))))
+            else:
+                out.append(Pairing(sig, res, rebuild(f, ("mem", inner[1], inner[2], ips, irf, r.choice([1, 2, 2, 3])))))
     return out[:count]
 
 
@@ -345,6 +367,13 @@ def directed_pairings():
         out.append(Pairing(["p.%s" % a], "-", ("retype", ("fun", "ptr", ["q.v"], "-"))))
         out.append(Pairing(["U.%s" % a], "-", ("retype", ("fun", "ptr", ["B.c"], "-"))))
         out.append(Pairing(["d.%s" % a], "-", ("retype", ("mem", 0, 0, ["i.v"], "-"))))
+    # the method's class against the object's class, const and non-const methods, alone and under retype/bind
+    for rel in (0, 1, 2, 3):
+        for mc in (0, 1):
+            out.append(Pairing(["i.v"], "i", ("mem", 0, mc, ["i.v"], "i", rel)))
+            out.append(Pairing([], "-", ("mem", 0, mc, [], "-", rel)))
+            out.append(Pairing(["d.v"], "-", ("retype", ("mem", 0, mc, ["i.v"], "-", rel))))
+            out.append(Pairing([], "i", ("bind", "i", ("mem", 0, mc, ["i.v"], "i", rel))))
     return out
 
 
